@@ -13,7 +13,7 @@ P = {
         "strings with NUL and byte strings that are not valid UTF-8 are outside the property (C09)",
     ],
     "tiers": tiers(
-        quick=[{"name": "rand", "mode": "run", "count": 3000, "max_size": 100, "shards": 12, "max_seconds": 70}],
+        quick=[{"name": "rand", "mode": "run", "count": 10000, "max_size": 100, "shards": 16, "max_seconds": 70}],
         thorough=[{"name": "rand", "mode": "run", "count": 200000, "max_size": 100, "shards": 16, "max_seconds": 1200}],
     ),
 }
